@@ -70,7 +70,7 @@ def gen_frac(rng):
         else:
             clock8 = rng.choice([0, 4, 13, 8 * rng.randint(0, 50) + rng.randint(0, 7)]); ops.append(["set_time", clock8])
     ops.append(["get", rng.randint(1, 9)])
-    return dict(sr=float(2 ** rng.randint(4, 16)), t0_8=t0, antenna=rng.random() < 0.4, ops=ops)
+    return dict(sr=float(2 ** rng.randint(4, 16)), t0_8=t0, antenna=rng.random() < 0.4, ops=ops, dup=rng.choice([0, 1, 2, 3]))
 
 
 def g_ops(c):
